@@ -161,6 +161,10 @@ theorem add_eq (v : Variant) (s : State) (k : Nat) (e : Entry) :
 @[simp] theorem fired_cb (i t g : Nat) (r : List Event) : fired (.callback i t g :: r) = i :: fired r := rfl
 @[simp] theorem fired_eb (i : Nat) (w : Why) (r : List Event) : fired (.errback i w :: r) = i :: fired r := rfl
 @[simp] theorem fired_exc (x : PyErr) (r : List Event) : fired (.exc x :: r) = fired r := rfl
+@[simp] theorem fired_sendFail (w : FailAt) (r : List Event) : fired (.sendFail w :: r) = fired r := rfl
+@[simp] theorem sents_sendFail (w : FailAt) (r : List Event) : sents (.sendFail w :: r) = sents r := rfl
+@[simp] theorem cbs_sendFail (w : FailAt) (r : List Event) : cbs (.sendFail w :: r) = cbs r := rfl
+@[simp] theorem served_sendFail (w : FailAt) (r : List Event) : served (.sendFail w :: r) = served r := rfl
 @[simp] theorem fired_tclose (r : List Event) : fired (.tclose :: r) = fired r := rfl
 @[simp] theorem sents_tclose (r : List Event) : sents (.tclose :: r) = sents r := rfl
 @[simp] theorem cbs_tclose (r : List Event) : cbs (.tclose :: r) = cbs r := rfl
@@ -192,6 +196,7 @@ theorem served_sub_fired {evs : List Event} {i : Nat} (h : i ∈ served evs) : i
   | errback a w => cases w <;> simp_all [Event.servedId, Event.firedId]
   | exc x => simp [Event.servedId] at hs
   | tclose => simp [Event.servedId] at hs
+  | sendFail w => simp [Event.servedId] at hs
 
 /-! ### the invariant of reachable (state, trace) pairs -/
 
@@ -238,6 +243,20 @@ theorem inv_close {v : Variant} {s : State} {evs : List Event} (hc : Bool) (h : 
     rcases he with he | he
     · exact h12 e he
     · subst he; rfl
+
+/-- an `execute` whose sending fails: the manager's id counter moves (no field of the invariant mentions it), the
+    event is not one any observation looks at -/
+theorem inv_execFail {v : Variant} {s : State} {evs : List Event} (w : FailAt) (h : Inv v s evs) :
+    Inv v (execFail v s w).1 (evs ++ (execFail v s w).2) := by
+  obtain ⟨h2, h3, h4, h5, h6, h7, h8, h9, h10, h11, h12⟩ := h
+  simp only [execFail]
+  refine ⟨by simpa using h2, by simpa using h3, by simpa using h4, h5, by simpa using h6, h7, by simpa using h8, h9,
+    by simpa using h10, by simpa [pendingIds] using h11, ?_⟩
+  intro e he
+  simp only [List.mem_append, List.mem_cons, List.mem_nil_iff, or_false] at he
+  rcases he with he | he
+  · exact h12 e he
+  · subst he; rfl
 
 theorem inv_bump_fail {v : Variant} {s : State} {evs : List Event} (h : Inv v s evs) :
     Inv v (bump v s) (evs ++ [.sent s.nextId (allocTid v s), .errback s.nextId .notConnected]) := by
@@ -813,6 +832,7 @@ theorem step_flag {v : Variant} (s : State) (op : Op) :
     simp only [step, Spec.connAfter]
     exact lostLoop_flag _ _ rfl
   | close hc => rfl
+  | execFail w => rfl
 
 
 theorem inv_step {v : Variant} {s : State} {evs : List Event} (op : Op) (h : Inv v s evs) :
@@ -823,6 +843,7 @@ theorem inv_step {v : Variant} {s : State} {evs : List Event} (op : Op) (h : Inv
   | reply t tag => exact inv_reply t tag h
   | connectionLost => exact (connectionLost_spec h).1
   | close hc => exact inv_close hc h
+  | execFail w => exact inv_execFail w h
 
 theorem inv_run {v : Variant} : ∀ (ops : List Op) {s : State} {evs : List Event}, Inv v s evs →
     Inv v (run v s ops).1 (evs ++ (run v s ops).2) := by
@@ -1144,6 +1165,9 @@ theorem complete_step {v : Variant} {s : State} {evs : List Event} (op : Op) (h 
     intro i hi
     have := hc i hi
     cases b <;> simpa [step, close, pendingIds] using this
+  | execFail w =>
+    intro i hi
+    simpa [step, execFail, pendingIds] using hc i hi
 
 /-! ### deliveries happen only in `reply` -/
 
@@ -1195,6 +1219,7 @@ theorem arrived_step {v : Variant} (s : State) (op : Op) : Spec.Arrived op (step
   | execute r => simp [Spec.Arrived, step, cbs_execute]
   | connectionLost => simp [Spec.Arrived, step, connectionLost, cbs_lostLoop]
   | close b => cases b <;> simp [Spec.Arrived, step, close]
+  | execFail w => simp [Spec.Arrived, step, execFail]
   | reply t tag =>
     simp only [Spec.Arrived, step, reply]
     split
@@ -1222,6 +1247,7 @@ theorem unsolicited_step {v : Variant} {s : State} {pre : List Event} (h : Inv v
   | execute r => trivial
   | connectionLost => trivial
   | close b => trivial
+  | execFail w => trivial
   | reply t tag =>
     simp only [Spec.Unsolicited, step]
     intro hns
@@ -1256,6 +1282,7 @@ theorem failsWhenDown_step {v : Variant} {s : State} {pre : List Event} (h : Inv
     exact (execute_down_spec r s hd).2.2.1
   | connectionLost => exact (connectionLost_spec h).2.2.2.1
   | close b => intro p hp; cases b <;> simp [step, close] at hp
+  | execFail w => intro p hp; simp [step, execFail] at hp
   | reply t tag =>
     simp only [Spec.down, Bool.not_eq_true'] at hd
     simp only [step, reply]
@@ -1346,6 +1373,7 @@ theorem delivered_step {v : Variant} {s : State} {pre : List Event} (h : Inv v s
   | execute r => trivial
   | connectionLost => trivial
   | close b => trivial
+  | execFail w => trivial
   | reply t tag =>
     cases v with
     | dict =>
@@ -1408,6 +1436,7 @@ theorem lostFails_step {v : Variant} {s : State} {pre : List Event} (h : Inv v s
   | execute r => trivial
   | reply t tag => trivial
   | close b => trivial
+  | execFail w => trivial
   | connectionLost =>
     simp only [Spec.LostFails, step]
     intro p hp
@@ -1695,6 +1724,10 @@ theorem down_step {v : Variant} {s : State} {evs : List Event} (h : Inv v s evs)
     refine ⟨rfl, fun p hp => hp, ?_, Nat.le_refl _, ?_⟩
     · intro p hp; cases b <;> simp [step, close] at hp
     · intro i h1 h2; simp only [step, close] at h2; omega
+  | execFail w =>
+    refine ⟨hc, fun p hp => hp, ?_, Nat.le_refl _, ?_⟩
+    · intro p hp; simp [step, execFail] at hp
+    · intro i h1 h2; simp only [step, execFail] at h2; omega
   | connectionLost =>
     obtain ⟨_, c2, c3, c4, _, c6, c7⟩ := connectionLost_spec h
     refine ⟨c2, ?_, c4, c6, c7⟩
